@@ -66,7 +66,7 @@ def run(prog, rep, tier='quick', config='default'):
     # ------------------------------------------------------------------ R12b
     n_some = 0
     for fn in prog.product_fns():
-        if not fn.name.startswith(MOD) or 'testlib' in fn.name:
+        if not (fn.name.startswith(MOD) or fn.name.startswith('<' + MOD)) or 'testlib' in fn.name:
             continue
         ordn = 0
         for i, b in fn.blocks.items():
@@ -148,7 +148,7 @@ def run(prog, rep, tier='quick', config='default'):
     # ------------------------------------------------------------------ R12e: the per-day map only holds loaded data
     n_mut = 0
     for fn in prog.product_fns():
-        if not fn.name.startswith(MOD) or 'testlib' in fn.name:
+        if not (fn.name.startswith(MOD) or fn.name.startswith('<' + MOD)) or 'testlib' in fn.name:
             continue
         for c in fn.calls:
             a0 = c.arg_local(0)
@@ -180,6 +180,9 @@ def run(prog, rep, tier='quick', config='default'):
             k = '%s|day-map-%s' % (fn.name, c.short)
             src = mir.provenance(fn, c.args[0], follow_all_call_args=True)
             from_vec = any(re.search(r'Vec<fx::model::DailyRate>|\[fx::model::DailyRate\]', fn.ty.get(p_, '')) for p_ in src.params)
+            # (on a spliced view the loaded year is a local of the enclosing body, not a parameter)
+            from_vec = from_vec or (getattr(fn, 'origin', None) is not None and not src.params and
+                                    any(re.search(r'^&?(mut )?std::vec::Vec<fx::model::DailyRate>|^&?\[fx::model::DailyRate\]', fn.ty.get(l_, '') or '') for l_ in src.locals))
             fresh = [x for x in src.calls if x.short in ('chain', 'once', 'repeat', 'zip', 'flat_map', 'successors', 'from_fn')]
             if not from_vec and src.params and fn.kind in ('Fn', 'AssocFn'):
                 # a generic `impl IntoIterator<Item = &DailyRate>` parameter: what the product callers hand over
@@ -207,7 +210,7 @@ def run(prog, rep, tier='quick', config='default'):
     # ------------------------------------------------------------------ R12c
     loops = []
     for fn in prog.product_fns():
-        if not fn.name.startswith(MOD) or 'testlib' in fn.name:
+        if not (fn.name.startswith(MOD) or fn.name.startswith('<' + MOD)) or 'testlib' in fn.name:
             continue
         for c in fn.calls:
             if c.callee == exact.name and fn.loop_of(c.bb) is not None:
